@@ -2634,7 +2634,9 @@ class CondTr(Generic[X, R], Trace[X, R]):
         return merged
 
     def get_args(self) -> Any:
-        return (self.check, *self.trs[0].get_args())
+        # standard (args, kwargs) storage format, so that Trace.update can re-use it
+        args, kwargs = self.trs[0].get_args()
+        return (self.check, *args), kwargs
 
     def get_retval(self) -> R:
         if jnp.ndim(self.check):
